@@ -23,7 +23,8 @@ META = {
   "names_len*_realkey: REAL name handling (name + suffix) and REAL p_ipc_get_platform_key over the kernel model in string-name mode, concrete names of 1..100 characters "
   "(pairs differing only in the last / only in the first character, and an equal copy); run with --max-field-sensitivity-array-size 256 so that heap strings > 64 bytes stay constant",
   "initval_*: init_val is a fully symbolic pint; negative values are the documented invalid argument (NULL); histories draw init from 0..VMAX",
-  "allocator never fails (C18), no EINTR (C19), printf empty"],
+  "hist*_eintr2: sem_wait fails with EINTR (no effect) at a symbolic subset (<=2) of its invocations inside every acquire of the history",
+  "allocator never fails (C18), EINTR only in hist*_eintr* (rest: C19), printf empty"],
  "outside": ["kernel semantics themselves (model trusted; SEM_VALUE_MAX = INT_MAX as on this platform)", "psemaphore-sysv.c (not built on this platform)", "more than 2 processes / 3 handles / 2 names", "names other than the concrete ones used (key collisions of SHA-1 prefixes are possible in principle)",
              "histories longer than the stated number of calls", "counter values above VMAX+2",
              "concurrent p_semaphore_new / p_semaphore_free interleavings (the property quantifies interleavings of acquirers/releasers; creation races of the "
@@ -42,15 +43,16 @@ MANIFEST = {
  "technique": "CBMC bounded symbolic execution of real units vs. generation-counter reference over a POSIX IPC kernel model; symbolic crash switch; nested-atomic emulation",
  "design_ref": "DESIGN.md §3 C06",
 }
-def hist(n, nh, preempt=False, kfdemo=False, vmax=2, timeout=1500):
+def hist(n, nh, preempt=False, kfdemo=False, vmax=2, timeout=1500, eintr=0):
     defs = ["NOPS=%d" % n, "NH=%d" % nh, "VMAX=%d" % vmax, "VK_NSEM=%d" % (n + 1), "VK_NSEMH=%d" % (n + 1)]
     if preempt: defs.append("PREEMPT")
     if kfdemo: defs.append("KF_DEMO_CREATE_EXISTING")
-    return Q("hist%d_h%d%s%s" % (n, nh, "_preempt" if preempt else "", "_kfdemo" if kfdemo else ""), "harness/C06_hist.c",
-             units=SEM_UNITS, models=KM, hdefs=defs, includes=REDIR, unwindset=dict(UW, **{"harness.0": n + 1}), timeout=timeout, funcs=FUNCS,
+    if eintr: defs.append("EINTR_MAX=%d" % eintr)
+    return Q("hist%d_h%d%s%s%s" % (n, nh, "_preempt" if preempt else "", "_kfdemo" if kfdemo else "", "_eintr%d" % eintr if eintr else ""), "harness/C06_hist.c",
+             units=SEM_UNITS, models=KM, hdefs=defs, includes=REDIR, unwindset=dict(UW, **{"harness.0": n + 1, "p_semaphore_acquire.0": eintr + 2}), timeout=timeout, funcs=FUNCS,
              kf="C06_create_existing" if kfdemo else None,
              bounds={"calls": n, "names": 2, "handles": nh, "processes": 2, "init_values": "0..%d" % vmax,
-                     "preemption_depth": 1 if preempt else 0})
+                     "preemption_depth": 1 if preempt else 0, "eintr_per_acquire": eintr})
 def realkey():
     return Q("realkey_sha1_names", "harness/C06_realkey.c", units=HASH_UNITS, models=["models/alloc.c", "models/verif.c", "models/libc_stub.c"],
              unwind=90, timeout=600, funcs=["p_ipc_get_platform_key", "p_crypto_hash_new", "p_crypto_hash_update", "p_crypto_hash_get_string"],
@@ -80,5 +82,5 @@ def names(n, kind=0):
              bounds={"name_length": n, "names": "A, A with another last character, A with another first character, an equal copy of A (concrete)"})
 def queries(tier):
     if tier == "quick":
-        return [realkey()] + [names(n) for n in NAME_LENS] + [initval(False), initval(True), crash(3), hist(5, 3), hist(4, 3, preempt=True), hist(3, 2, kfdemo=True)]
-    return [realkey()] + [names(n) for n in NAME_LENS] + [initval(False), initval(True), crash(4), hist(6, 3, vmax=3, timeout=3000), hist(5, 3, preempt=True, timeout=3000), hist(3, 2, kfdemo=True)]
+        return [realkey()] + [names(n) for n in NAME_LENS] + [initval(False), initval(True), crash(3), hist(5, 3), hist(4, 3, preempt=True), hist(3, 2, eintr=2), hist(3, 2, kfdemo=True)]
+    return [realkey()] + [names(n) for n in NAME_LENS] + [initval(False), initval(True), crash(4), hist(6, 3, vmax=3, timeout=3000), hist(5, 3, preempt=True, timeout=3000), hist(4, 3, eintr=2), hist(3, 2, kfdemo=True)]
